@@ -81,22 +81,79 @@ def cast_op(ty, a):
     return (OK, a) if lo <= a <= hi else (UB, 0)
 
 
+OVF, UNS, BIG = "ovf", "uns", "big"
+_RANK = {UB: 5, DIV0: 4, OVF: 3, BIG: 2, UNS: 1, OK: 0}
+BIG_UNSIGNED = {"2147483648u", "4294967295u", "0x80000000", "0xffffffff", "4294967295U", "020000000000"}
+
+
 def _worst(x, y):
-    if x[0] == UB or y[0] == UB:
-        return (UB, 0)
-    return (DIV0, 0)
+    return (x[0], 0) if _RANK[x[0]] >= _RANK[y[0]] else (y[0], 0)
+
+
+def typ(t):
+    """static type after promotion: True = unsigned int (Typ in the spec)"""
+    k = t[0]
+    if k == "lit":
+        return False
+    if k == "sp":
+        return len(t) > 3 and bool(t[3])
+    if k == "ulit":
+        return True
+    if k == "big":
+        return t[1] in BIG_UNSIGNED
+    if k == "un":
+        return False if t[1] == "!" else typ(t[2])
+    if k == "cast":
+        return False
+    if k == "bin":
+        if t[1] in ("<", ">", "<=", ">=", "==", "!=", "&&", "||"):
+            return False
+        if t[1] in ("<<", ">>"):
+            return typ(t[2])
+        return typ(t[2]) or typ(t[3])
+    return typ(t[2]) or typ(t[3])
+
+
+def _int_bin(op, a, b):
+    r = bin_op(op, a, b)
+    return (OVF, 0) if r[0] == UB and op in "+-*/%" else r
+
+
+def _uns_bin(op, a, b):
+    if op in ("<<", ">>"):
+        if b < 0 or b > 31:
+            return (UB, 0)
+        if op == ">>":
+            return (OK, a >> b)
+        r = bin_op("<<", a, b)
+        return r if r[0] == OK else (UNS, 0)
+    if a < 0 or b < 0:
+        return (UNS, 0)
+    r = bin_op(op, a, b)
+    if r[0] == UB or (r[0] == OK and r[1] < 0):
+        return (UNS, 0)
+    return r
 
 
 def ev(t):
     """(d, v) exactly as Ev in ConstExpr.tla."""
     k = t[0]
-    if k == "lit":
+    if k in ("lit", "ulit"):
         return (OK, t[1])
     if k == "sp":
         return (OK, t[2])
+    if k == "big":
+        return (BIG, 0)
     if k == "un":
         x = ev(t[2])
-        return un_op(t[1], x[1]) if x[0] == OK else x
+        op = t[1]
+        if x[0] != OK:
+            return x
+        if typ(t[2]) and op in "-~":
+            return x if (op == "-" and x[1] == 0) else (UNS, 0)
+        if op == "-" and x[1] == INT_MIN:
+            return (OVF, 0)
+        return un_op(op, x[1])
     if k == "cast":
         x = ev(t[2])
         return cast_op(t[1], x[1]) if x[0] == OK else x
@@ -113,14 +170,22 @@ def ev(t):
             y = ev(t[3])
             return (OK, int(y[1] != 0)) if y[0] == OK else y
         y = ev(t[3])
-        if x[0] == OK and y[0] == OK:
-            return bin_op(op, x[1], y[1])
-        return _worst(x, y)
+        if op in ("<<", ">>") and (y[0] != OK or y[1] < 0 or y[1] > 31):
+            return (UB, 0)
+        if op in "/%" and y[0] == OK and y[1] == 0:
+            return (UB, 0) if x[0] == UB else (DIV0, 0)
+        if x[0] != OK or y[0] != OK:
+            return _worst(x, y)
+        u = typ(t[2]) if op in ("<<", ">>") else (typ(t[2]) or typ(t[3]))
+        return _uns_bin(op, x[1], y[1]) if u else _int_bin(op, x[1], y[1])
     if k == "cond":
         c = ev(t[1])
         if c[0] != OK:
             return c
-        return ev(t[2]) if c[1] != 0 else ev(t[3])
+        r = ev(t[2]) if c[1] != 0 else ev(t[3])
+        if r[0] == OK and (typ(t[2]) or typ(t[3])) and r[1] < 0:
+            return (UNS, 0)
+        return r
     raise ValueError(t)
 
 
@@ -129,16 +194,24 @@ def ev(t):
 # for ["lit", v] and the given text for ["sp", text, v].
 
 def _leaf_tok(t):
-    return str(t[1]) if t[0] == "lit" else t[1]
+    if t[0] == "lit":
+        return str(t[1])
+    if t[0] == "ulit":
+        return "%du" % t[1]
+    return t[1]
 
 
 def _leaf_neg(t):
-    return (t[1] < 0) if t[0] == "lit" else t[1].startswith(("-", "+", "!", "~"))
+    if t[0] == "lit":
+        return t[1] < 0
+    if t[0] in ("ulit", "big"):
+        return False
+    return t[1].startswith(("-", "+", "!", "~"))
 
 
 def tprec(t):
     k = t[0]
-    if k in ("lit", "sp"):
+    if k in ("lit", "sp", "ulit", "big"):
         return PUNARY if _leaf_neg(t) else PPRIMARY
     if k in ("un", "cast"):
         return PUNARY
@@ -152,7 +225,7 @@ def toks_min(t):
         s = toks_min(c)
         return ["("] + s + [")"] if tprec(c) < mn else s
     k = t[0]
-    if k in ("lit", "sp"):
+    if k in ("lit", "sp", "ulit", "big"):
         return [_leaf_tok(t)]
     if k == "un":
         return [t[1]] + opd(t[2], PUNARY)
@@ -166,7 +239,7 @@ def toks_min(t):
 
 def toks_full(t):
     k = t[0]
-    if k in ("lit", "sp"):
+    if k in ("lit", "sp", "ulit", "big"):
         return ["(", _leaf_tok(t), ")"] if _leaf_neg(t) else [_leaf_tok(t)]
     if k == "un":
         return ["(", t[1]] + toks_full(t[2]) + [")"]
